@@ -355,10 +355,61 @@ func extractC12() *lean {
 	}
 	l.def("regexMatchTimeoutSetBeforeRun", "Bool", fmt.Sprint(timeoutSet), timeoutSet)
 	l.def("regexMatchTimeoutValue", "String", fmt.Sprintf("%q", timeoutValue), timeoutValue)
+	// ---- nil entries: Match / ResolveConstraintsFields begin with checkNoNilEntries, which tests the descriptors and recurses
+	// into FromNested; CredentialsRequired skips nil requirements
+	startsWithNilCheck := func(name string) bool {
+		fd := funcDecl(pdf, name)
+		if fd == nil || len(fd.Body.List) == 0 {
+			return false
+		}
+		is, ok := fd.Body.List[0].(*ast.IfStmt)
+		if !ok || is.Init == nil || exprString(is.Cond) != "err != nil" || len(is.Body.List) == 0 {
+			return false
+		}
+		as, ok := is.Init.(*ast.AssignStmt)
+		if !ok || len(as.Rhs) != 1 || exprString(as.Rhs[0]) != "presentationDefinition.checkNoNilEntries()" {
+			return false
+		}
+		_, ok = is.Body.List[len(is.Body.List)-1].(*ast.ReturnStmt)
+		return ok
+	}
+	checkerOK := false
+	if fd := funcDecl(pdf, "checkNoNilEntries"); fd != nil {
+		nilTests, recurses := 0, false
+		ast.Inspect(fd, func(n ast.Node) bool {
+			switch x := n.(type) {
+			case *ast.BinaryExpr:
+				if x.Op == token.EQL && exprString(x.Y) == "nil" && (exprString(x.X) == "inputDescriptor" || exprString(x.X) == "requirement") {
+					nilTests++
+				}
+			case *ast.CallExpr:
+				if exprString(x.Fun) == "check" && len(x.Args) == 1 && exprString(x.Args[0]) == "requirement.FromNested" {
+					recurses = true
+				}
+			}
+			return true
+		})
+		checkerOK = nilTests == 2 && recurses
+	}
+	requiredSkipsNil := false
+	if fd := funcDecl(pdf, "CredentialsRequired"); fd != nil {
+		ast.Inspect(fd, func(n ast.Node) bool {
+			if rs, ok := n.(*ast.RangeStmt); ok && exprString(rs.X) == "presentationDefinition.SubmissionRequirements" && len(rs.Body.List) > 0 {
+				if is, ok := rs.Body.List[0].(*ast.IfStmt); ok && exprString(is.Cond) == exprString(rs.Value)+" == nil" && len(is.Body.List) == 1 {
+					if br, ok := is.Body.List[0].(*ast.BranchStmt); ok && br.Tok == token.CONTINUE {
+						requiredSkipsNil = true
+					}
+				}
+			}
+			return true
+		})
+	}
+	nilChecked := startsWithNilCheck("Match") && startsWithNilCheck("ResolveConstraintsFields") && checkerOK && requiredSkipsNil
+	l.def("nilEntriesChecked", "Bool", fmt.Sprint(nilChecked), nilChecked)
 	l.def("matchFilterArrayGuard", "Bool", arrayGuard, arrayGuard)
 	l.def("matchFilterAssertsString", "Bool", fmt.Sprint(patternAsserts), patternAsserts)
 	l.def("applyMaxGuarded", "Bool", maxGuarded, maxGuarded)
-	l.sb.WriteString("def cfg : Cfg := { arrayGuard := matchFilterArrayGuard, maxNilCheck := applyMaxGuarded, dupCheck := resolveRejectsDuplicateIds, maxCheckFirst := applyMaxTestBeforeTake, minMaxCheck := applyRejectsMinAboveMax }\n")
+	l.sb.WriteString("def cfg : Cfg := { arrayGuard := matchFilterArrayGuard, maxNilCheck := applyMaxGuarded, dupCheck := resolveRejectsDuplicateIds, maxCheckFirst := applyMaxTestBeforeTake, minMaxCheck := applyRejectsMinAboveMax, nilCheck := nilEntriesChecked }\n")
 
 	// ---- JSON schema of a submission requirement: rule names and lower bounds of count/min/max (both oneOf branches)
 	b, err := os.ReadFile(filepath.Join(repo, "vcr/pe/schema/v2/submission-requirement.json"))
